@@ -147,10 +147,10 @@ canary('zero mark accepted', Position, 'update_current_price', 'market_price <= 
 def position_open(c):
     """Opening establishes PosInv with the fill as the whole ledger."""
     q = c.real('q', lambda r: float(r.choice([-150, -40, -1, -0.5, 0.5, 1, 7, 100])))
-    p = c.real('p', lambda r: round(r.uniform(0.5, 300), 2))
+    p = c.real('p', lambda r: r.choice([0.0, round(r.uniform(0.5, 300), 2), round(r.uniform(0.5, 300), 2)]))
     k = c.real('commission', lambda r: round(r.uniform(0, 25), 2))
     t = c.time('txn_dt')
-    c.assume(AND(NE(q, 0), GT(p, 0)))
+    c.assume(AND(NE(q, 0), GE(p, 0)))              # (an opening fill may be at price zero: nothing checks it)
     pos = Position.open_from_transaction(Transaction('A', q, t, p, 'oid', commission=k))
     buy = bool(q > 0)
     c.ob('sides', AND(EQ(pos.buy_quantity, q if buy else 0), EQ(pos.sell_quantity, 0 if buy else -q)))
